@@ -452,6 +452,57 @@ def gen_case(rng, conf: S.Conf):
     return pairs
 
 
+# the option `check_repr` (default on): given in a settings url it must be read as a boolean like the other switches
+CHECK_REPR_CASES = [("url", "false", False), ("url", "0", False), ("url", "False", False), ("url", "true", True), ("url", "1", True),
+                    ("url", None, True), ("kw", False, False), ("kw", True, True)]
+
+
+def check_repr_option(chk: Check) -> dict:
+    """a pickled object whose repr raises AttributeError is answered with the caller's default while the repr check is on and
+    comes back while it is off - for every way of switching it (settings url text, keyword), with and without a secret.
+    Defect D72: `_serialize_params` did not list check_repr among the boolean options, `?check_repr=false` stayed the truthy
+    text 'false' and the check could not be switched off through a url."""
+    import urllib.parse
+
+    out = {}
+    for via, given, on in CHECK_REPR_CASES:
+        for secret in (None, "s3cret"):
+            q = {"pickle_type": "default", "check_interval": "0"}
+            kw = {}
+            if secret:
+                q["secret"] = secret
+            if via == "url" and given is not None:
+                q["check_repr"] = given
+            if via == "kw":
+                kw["check_repr"] = given
+            url = "mem://?" + urllib.parse.urlencode(q)
+
+            async def go(url=url, kw=kw):
+                cache = S.Cache()
+                cache.setup(url, **kw)
+                await cache.set("k", S.ReprBroken(b"x"))
+                a = await S.read(cache.get("k", default=S.SENT))
+                b = await S.read(cache.get_many("k", default=S.SENT))
+                return a, b
+
+            a, b = vtime.run(go)
+            b = ("dflt", None) if b[0] == "value" and b[1][0] is S.SENT else (("value", b[1][0]) if b[0] == "value" else b)
+            want = ("dflt", None) if on else ("value", S.ReprBroken(b"x"))
+            name = f"{url} {kw or ''}".strip()
+            out[name] = "default (repr check on)" if a[0] == "dflt" else ("value (repr check off)" if a[0] == "value" else str(a))
+            for label, got in (("get", a), ("get_many", b)):
+                if got[0] != want[0] or (want[0] == "value" and not (got[1] == want[1])):
+                    chk.violation(
+                        f"check_repr given as {given!r} ({via}): the repr check should be {'on' if on else 'off'}, but {label} of a pickled "
+                        f"object whose repr raises AttributeError answered {got[0]}{'' if got[0] != 'raised' else ':' + str(got[1])} "
+                        f"instead of {'the default' if on else 'the object'} ({url})",
+                        {"url": url, "keywords": {k: v for k, v in kw.items()}, "value": "serial.ReprBroken(b'x')", "expected": want[0],
+                         "observed": got[0], "how": "Cache().setup(url, **keywords); await cache.set('k', value); await cache.get('k', default=<sentinel>)"},
+                        signature="D72:url-check-repr-not-boolean")
+                    return out
+    return out
+
+
 def run(chk: Check) -> int:
     S.register_boxes()
     proof = proof_stage(PROP, "driver_c09", chk.thorough) if not getattr(chk, "skip_proof", False) else None
@@ -463,6 +514,8 @@ def run(chk: Check) -> int:
                       {"broken": "Digest.label table <-> HashSigner._digestmods", "model": exc.model, "code": exc.code},
                       no_input=True)
         found += 1
+    check_repr_cov = check_repr_option(chk)
+    found = max(found, len(chk.violations))
     confs = S.all_confs()
     # secrets that look like numbers / are given as str keywords: judged like every other configuration.  A configuration
     # that cannot store and read back at all (defect D42, repaired in /repo as c2756b4: the settings url turned such a secret
@@ -609,6 +662,7 @@ def run(chk: Check) -> int:
         "decode_path_cases": path_hist,
         "pickler_hypotheses_sampled": hyp,
         "secret_spellings_probed": secret_probe,
+        "check_repr_option": check_repr_cov,
         "trusted_base": TRUSTED,
         "partial": "P1-P3 for pickle/json are sampled, not proved; dill/sqlalchemy picklers are not installed; redis/diskcache backends "
                    "are not exercised (C09 is anchored on the in-memory backend); numeric-looking secrets in the settings url are probed and judged (defect D42, repaired as c2756b4); two classes that share a __name__ share one "
